@@ -20,7 +20,7 @@ DISTINCT = ('config_cells',)
 REQUIRED = ('wrapper_calls', 'signatures', 'repeat_calls_served_from_cache', 'key_pairs_compared', 'expiry_cases',
             'expire_zero_cases', 'falsy_results', 'decorator_cache', 'decorator_fanout', 'decorator_index',
             'decorator_django', 'decorator_stampede', 'derived_name_cases', 'contended_first_calls',
-            'decorator_objects_reused', 'stacked_memoizations', 'repeats_with_keywords_reordered', 'failing_function_cases')
+            'decorator_objects_reused', 'stacked_memoizations', 'repeats_with_keywords_reordered', 'failing_function_cases', 'calls_beside_an_early_recomputation')
 ASSUMPTIONS = ('two calls are "the same arguments" when positional/keyword binding matches and values are equal under == '
                '(and have equal types when typed); ignored positions/names are removed first',
                'memoize_stampede: the probe runs in ~0 virtual time so early recomputation has probability ~0')
@@ -271,6 +271,69 @@ class MemoizedFunctionFailed(Exception):
     pass
 
 
+def stampede_recomputation(dc, sc, res, label):
+    """memoize_stampede while an early recomputation is in flight: the hit that triggers it and every later call of the
+    same arguments are served from the cache, and calls with OTHER arguments - among them the signatures that extend the
+    recomputed one by None - have entries of their own: they run the function once and get its result."""
+    import threading
+    clock = probe.set_clock(probe.VClock())
+    d = sc.new()
+    cache = dc.Cache(d)
+    try:
+        for typed in (False, True):
+            for first in ((1,), (), ('a',)):
+                for fkw in ({}, {'b': 2}):
+                    runs, release, in_flight = [], threading.Event(), threading.Event()
+
+                    def slow(*args, **kwargs):
+                        runs.append((args, kwargs))
+                        if len(runs) == 2:              # the early recomputation (in its own thread)
+                            in_flight.set()
+                            release.wait(10)
+                        clock.advance(0.5)                # the function takes half a (virtual) second
+                        return ('slow', args, sorted(kwargs.items()))
+                    slow.__qualname__ = 'slow_%s_%d_%d' % (typed, len(first), len(fkw))
+                    w = dc.memoize_stampede(cache, expire=100, typed=typed, beta=1e15)(slow)
+                    want = ('slow', first, sorted(fkw.items()))
+                    wit = {'label': label, 'typed': typed, 'call': [first, fkw]}
+                    r1 = w(*first, **fkw)
+                    threads_before = set(threading.enumerate())
+                    r2 = w(*first, **fkw)             # a hit; with this beta it also starts the early recomputation
+                    recomputing = [t for t in threading.enumerate() if t not in threads_before]
+                    if not in_flight.wait(10):
+                        res.count('stampede_recomputations_not_started')
+                        release.set()
+                        continue
+                    res.count('stampede_recomputations_in_flight')
+                    res.count('evaluations')
+                    try:
+                        if r1 != want or r2 != want:
+                            res.violation('memoize_stampede returned %r then %r, the function returns %r' % (r1, r2, want), wit)
+                            continue
+                        others = list(dict.fromkeys([first + (None,), first + (None, None), (None,) + first]))
+                        for sig in others:
+                            n0 = len(runs)
+                            try:
+                                got = ('ok', w(*sig, **fkw))
+                            except Exception as exc:       # noqa: BLE001
+                                got = ('raise', '%s: %s' % (type(exc).__name__, exc))
+                            exp = ('slow', sig, sorted(fkw.items()))
+                            if got != ('ok', exp) or len(runs) != n0 + 1:
+                                res.violation('while the early recomputation of %r%r was in flight, the call %r%r gave %r '
+                                              'and ran the function %d time(s); expected %r and one run' % (
+                                                  first, fkw, sig, fkw, got, len(runs) - n0, exp), wit)
+                                break
+                            res.count('calls_beside_an_early_recomputation')
+                    finally:
+                        release.set()
+                        for t in recomputing:
+                            t.join(10)
+    finally:
+        probe.set_clock(None)
+        cache.close()
+        sc.drop(d)
+
+
 def extras(dc, sc, res, kind, label):
     """expiry, expire=0, falsy results, derived names."""
     clock = probe.set_clock(probe.VClock())
@@ -495,4 +558,6 @@ def run_shard(tier, seed, shard, nshards, res):
         for j, kind in enumerate(('cache', 'fanout', 'index', 'django', 'stampede')):
             if j % nshards == shard % 5:
                 extras(dc, sc, res, kind, 'c16 extras %s' % kind)
+                if kind == 'stampede':
+                    stampede_recomputation(dc, sc, res, 'c16 early recomputation')
                 contended_store(dc, sc, res, kind, 'c16 contended store %s' % kind)
